@@ -159,13 +159,13 @@ Proof.
   intros r c. unfold stale_by_list. rewrite negb_false_iff. apply list_eqb_N_eq.
 Qed.
 
-(* one dependency re-evaluated once (from an even version) and the other 2^sh times: the folded stamp does not move *)
-Theorem fold_stamp_collides : forall sh a b,
+(* one dependency re-evaluated once (from an even version) and the next one 2^sh times: the folded stamp does not
+   move, whatever the seed and the shift *)
+Theorem fold_stamp_collides : forall sh s0 a b,
   N.testbit b sh = false ->
-  fold_stamp sh [N.succ (2 * a); (b + 2 ^ sh)%N] = fold_stamp sh [(2 * a)%N; b].
+  fold_stamp sh s0 [N.succ (2 * a); (b + 2 ^ sh)%N] = fold_stamp sh s0 [(2 * a)%N; b].
 Proof.
-  intros sh a b Hb. unfold fold_stamp. cbn [fold_left].
-  rewrite !N.shiftl_0_l, !N.lxor_0_l.
+  intros sh s0 a b Hb. unfold fold_stamp. cbn [fold_left].
   assert (Hsucc : N.succ (2 * a) = N.lxor (2 * a) 1).
   { rewrite <- N.add_1_r. apply N.add_nocarry_lxor.
     apply N.bits_inj. intro n. rewrite N.land_spec, N.bits_0.
@@ -177,12 +177,15 @@ Proof.
     apply N.bits_inj. intro n. rewrite N.land_spec, N.bits_0.
     destruct (N.eq_dec n sh) as [->|Hn]; [rewrite Hb; reflexivity|].
     rewrite N.pow2_bits_false by congruence. apply andb_false_r. }
-  rewrite Hsucc, Hadd. rewrite N.shiftl_lxor.
-  rewrite N.shiftl_1_l.
-  rewrite !N.lxor_assoc. f_equal.
+  rewrite Hsucc, Hadd.
+  rewrite <- (N.lxor_assoc (N.shiftl s0 sh) (2 * a) 1).
+  rewrite N.shiftl_lxor. rewrite N.shiftl_1_l.
+  set (Y := N.shiftl (N.lxor (N.shiftl s0 sh) (2 * a)) sh).
+  rewrite N.lxor_assoc. f_equal.
   rewrite (N.lxor_comm b (2 ^ sh)). rewrite <- N.lxor_assoc. rewrite N.lxor_nilpotent. apply N.lxor_0_l.
 Qed.
 
+(* the seeded change C13-I: shift 5, seed = number of dependencies *)
 Theorem folded_stamp_refuted :
-  stale_by_list [0; 0]%N [1; 32]%N = true /\ stale_by_stamp 5 [0; 0]%N [1; 32]%N = false.
+  stale_by_list [0; 0]%N [1; 32]%N = true /\ stale_by_stamp 5 2 [0; 0]%N [1; 32]%N = false.
 Proof. split; vm_compute; reflexivity. Qed.
